@@ -225,3 +225,28 @@ def pct(rng, ntasks, depth, horizon):
         return max(runnable, key=lambda t: state["prio"][t])
 
     return decide
+
+
+def preempt_sites(plan, order, is_site):
+    """Context switches only at *shared-state sites*: ``plan`` is a list of (task, n, switch_to) - when ``task`` reaches
+    its n-th yield point for which ``is_site(where)`` holds, the CPU goes to ``switch_to``; plan entries are consumed in
+    order.  Everything else runs to completion in ``order``.  Bounded search in the classical sense: pre-emptions are
+    placed at accesses to shared state, not at arbitrary lines."""
+    plan = list(plan)
+    visits = {}
+
+    def decide(point, tid, runnable, where):
+        if where != "<task-end>" and is_site(where):
+            visits[tid] = visits.get(tid, 0) + 1
+            if plan and plan[0][0] == tid and plan[0][1] == visits[tid]:
+                _, _, to = plan.pop(0)
+                if to in runnable:
+                    return to
+        if tid in runnable:
+            return tid
+        for t in order:
+            if t in runnable:
+                return t
+        return runnable[0]
+
+    return decide
